@@ -93,17 +93,9 @@ theorem set_bit_eq_spec (T : CTy) (hT : SetTy T) (v n : Nat) (b : Bool) (hv : v 
 
 /-! ### every history of setter calls
 
-  `runSets` replays any sequence of `(choice, value)` setter calls through the
+  `runSets` (`Lemmas/Bits.lean`) replays any sequence of `(choice, value)` setter calls through the
   extracted setter kernel.  `lastWrite` is the abstract specification: a map
   from choice index to the last value written to it. -/
-
-/-- replay a sequence of setter calls through the extracted kernel -/
-def runSets (T : CTy) : Nat → List (Nat × Bool) → Option Nat
-  | v, [] => some v
-  | v, (n, b) :: ops =>
-    match (bitset_set_bit T).varBits [v, n, if b then 1 else 0] "bits" with
-    | some r => runSets T r ops
-    | none => none
 
 /-- the last value written to choice `i` by `ops`, if any -/
 def lastWrite (i : Nat) : List (Nat × Bool) → Option Bool
